@@ -2,7 +2,11 @@
    Mirrors: AuthnResponse.loads (529-547), check_subject_confirmation_in_response_to (521-527),
    StatusResponse._verify (402-422) version / status part, status_ok (378-391) with the generated
    STATUSCODE2EXCEPTION table, parse_assertion count test (900-921), authn_statement_ok (555-563),
-   get_subject / _bearer_confirmed (698-733), _assertion (818-828).  Browser binding (asynchop). *)
+   get_subject / _bearer_confirmed (698-733), _assertion (818-828).  [accept] is the decision for an
+   asynchronous hop (asynchop = True) whose Destination passes; [receive] (end of file) puts the
+   binding-dependent part of Entity._parse_response / Saml2Client.parse_authn_request_response in
+   front of it: asynchop default, return_addrs per binding, Entity.unravel's known bindings,
+   StatusResponse._verify's Destination test. *)
 From Coq Require Import String List Bool Arith.
 From Verif Require Import Base.Str.
 From VerifGen Require Import C06Tables.
@@ -121,3 +125,60 @@ Definition accept (x : input) : verdict :=
       | _ => NoId
       end
   end.
+
+(* ------------------------------------------------------------------------------------------
+   The delivery: which binding the caller says the Response arrived over, and Response/@Destination.
+   Entity._parse_response: asynchop = binding not in [SOAP, PAOS]; parse_authn_request_response:
+   return_addrs = service_urls(binding) = the consumer endpoints registered for THAT binding;
+   Entity.unravel: PAOS is not in its list (UnknownBinding); _verify: "if self.asynchop: if
+   destination and destination not in return_addrs: return None" (between the version and the status
+   test; every outcome up to there is one without identity and without status error, so the test can
+   be taken first). *)
+Inductive binding := Post | Redirect | Artifact | Soap | Paos.
+
+(* Response/@Destination: the SP's HTTP-POST consumer endpoint, its HTTP-Redirect one, a URL that is
+   no endpoint of the SP, or no attribute *)
+Inductive destination := DPost | DRedirect | DElsewhere | DAbsent.
+
+Record delivery := { via : binding; dest : destination; resp : input }.
+
+Definition asynchop (b : binding) : bool := match b with Soap | Paos => false | _ => true end.
+Definition unravels (b : binding) : bool := match b with Paos => false | _ => true end.
+
+(* the harness SP registers one POST and one Redirect consumer endpoint, none for the others *)
+Definition return_addrs (b : binding) : list destination :=
+  match b with Post => [DPost] | Redirect => [DRedirect] | _ => [] end.
+
+Definition destination_eqb (a b : destination) : bool :=
+  match a, b with
+  | DPost, DPost | DRedirect, DRedirect | DElsewhere, DElsewhere | DAbsent, DAbsent => true
+  | _, _ => false
+  end.
+
+Definition destination_ok (b : binding) (d : destination) : bool :=
+  match d with DAbsent => true | _ => existsb (destination_eqb d) (return_addrs b) end.
+
+Definition scd_is_data (s : scd) : bool := match s with Data _ => true | NoData => false end.
+Definition count_data (scs : list scd) : nat := length (filter scd_is_data scs).
+
+(* asynchop = False (back channel): loads() looks nothing up, _verify skips Destination,
+   _bearer_confirmed keeps every confirmation that has data, _assertion does not ask for came_from *)
+Definition accept_back_channel (x : input) : verdict :=
+  if instance_invalid x then NoId else
+  if negb (version_ok (version x)) then NoId else
+  if negb (String.eqb (status_top x) STATUS_SUCCESS) then StatusErr (status_class (status_second x)) else
+  match assertions x with
+  | [a] =>
+      if negb (n_authn a =? 1)%nat then NoId else
+      match subject a with
+      | None => NoId
+      | Some scs => if (count_data scs =? 0)%nat then NoId else Identity None
+      end
+  | _ => NoId
+  end.
+
+Definition receive (y : delivery) : verdict :=
+  if negb (unravels (via y)) then NoId else
+  if asynchop (via y) then
+    if destination_ok (via y) (dest y) then accept (resp y) else NoId
+  else accept_back_channel (resp y).
